@@ -11,6 +11,7 @@ inductive Err where
   | eof      -- io.EOF forwarded (nothing was read)
   | err      -- any other error value
   | panic    -- a Go run-time panic / fatal error
+  | hang     -- resources (stack depth / loop iterations) beyond any multiple of the input length
   deriving Repr, DecidableEq, Inhabited
 
 abbrev Res (α : Type) := Except Err α
